@@ -305,19 +305,20 @@ func copyDir(src, dst string) error {
 
 func setup(root string, sc *Scenario) error {
 	files := map[string]string{
-		"go.mod":                 "module scn\n\ngo 1.24\n",
-		"src/src.go":             srcVersion(0, sc.StartAliased),
-		"src/enc.go":             srcEnc,
-		"src/dec.go":             srcDec,
-		"sigs/yaml/yaml.go":      "package yaml\n\ntype Node struct{ Kind int }\n",
-		"gopkg/yaml.v3/yaml.go":  "package yaml\n\ntype Node struct{ Tag string }\n",
-		"linktarget/real_gen.go": "package mocks\n\n// placeholder that -out points at through a symbolic link\n",
-		"dep/dep.go":             "package dep\n\ntype Item struct {\n\tID   string\n\tSize int\n}\n",
-		"blocker":                "this is a regular file where a directory is wanted\n",
-		"adir/keep.txt":          "keep\n",
-		"mocks/doc.go":           "// Package mocks holds generated mocks.\npackage mocks\n",
-		"sibling/s.go":           "package sibling\n\nconst Untouched = true\n",
-		"sibling/data.bin":       "\x00\x01\x02binary",
+		"go.mod":                     "module scn\n\ngo 1.24\n",
+		"src/src.go":                 srcVersion(0, sc.StartAliased),
+		"src/enc.go":                 srcEnc,
+		"src/dec.go":                 srcDec,
+		"sigs/yaml/yaml.go":          "package yaml\n\ntype Node struct{ Kind int }\n",
+		"gopkg/yaml.v3/yaml.go":      "package yaml\n\ntype Node struct{ Tag string }\n",
+		"linktarget/real_gen.go":     "package mocks\n\n// placeholder that -out points at through a symbolic link\n",
+		"linktarget/src_real_gen.go": "package src\n\n// placeholder behind a symbolic link that sits inside the source package\n",
+		"dep/dep.go":                 "package dep\n\ntype Item struct {\n\tID   string\n\tSize int\n}\n",
+		"blocker":                    "this is a regular file where a directory is wanted\n",
+		"adir/keep.txt":              "keep\n",
+		"mocks/doc.go":               "// Package mocks holds generated mocks.\npackage mocks\n",
+		"sibling/s.go":               "package sibling\n\nconst Untouched = true\n",
+		"sibling/data.bin":           "\x00\x01\x02binary",
 	}
 	for rel, content := range files {
 		p := filepath.Join(root, rel)
